@@ -125,10 +125,14 @@ class Driver:
             d = self.it.pattern(N_.definition)
             self.journal.append(('pattern', (N_.definition,)))
             return self.call('instantiate_pattern', d, {})
-        args = [self.build(max(0, depth - 2)) for _ in range(N_.arity)]
+        keys = list(range(N_.arity))
+        if rng.random() < 0.3:
+            rng.shuffle(keys)          # the map's key order is arbitrary (partial nodes instantiated again come out unsorted)
+            if keys != sorted(keys):
+                self.c('instantiate_pattern_unsorted_keys')
+        args = [self.build(max(0, depth - 2)) for _ in keys]     # plugs are pushed in the map's key order
         d = self.it.pattern(N_.definition)
         self.journal.append(('pattern', (N_.definition,)))
-        keys = list(range(N_.arity))
         return self.call('instantiate_pattern', d, dict(zip(keys, args)))
 
     # ------------------------------------------------------------ proofs by raw calls
